@@ -76,7 +76,7 @@ def sample_behaviour(path, maxsteps=12):
 
 
 def run_core(ctx, prop, need_stats=(), need_shapes=(), sim_cfg="SIM_core", mc_quick="MC_core_quick", mc_thorough="MC_core_mid",
-             invariants_note="", extra_rule=""):
+             invariants_note="", extra_rule="", harness_flags=(), sim_cfgs=None, scale=1.0, level="model_checking"):
     tier, seed = ctx["tier"], ctx["seed"]
     wd = vlib.workdir(prop)
     violations = []
@@ -96,16 +96,36 @@ def run_core(ctx, prop, need_stats=(), need_shapes=(), sim_cfg="SIM_core", mc_qu
         beh = ctx["replay"]
         nb, gen_s, cached = sum(1 for _ in open(beh)), 0.0, True
     else:
-        beh = os.path.join(vlib.workdir("core"), f"behaviours-{sim_cfg}-{tier}-{seed}.ndjson")
-        procs, num, depth = (8, 12, 60) if tier == "quick" else (14, 260, 80)
-        nb, gen_s, cached = gen_behaviours(sim_cfg, "MC_core", beh, procs, num, depth, seed, timeout=600 if tier == "quick" else 3000)
+        procs, num, depth = (8, max(2, int(12 * scale)), 60) if tier == "quick" else (14, max(4, int(260 * scale)), 60)
+        cfgs = sim_cfgs or [sim_cfg]
+        beh = os.path.join(vlib.workdir("core"), f"behaviours-{'+'.join(cfgs)}-{tier}-{seed}-{scale}.ndjson")
+        nb, gen_s, cached = 0, 0.0, True
+        parts = []
+        for c in cfgs:
+            part = os.path.join(vlib.workdir("core"), f"behaviours-{c}-{tier}-{seed}-{scale}-{len(cfgs)}.ndjson")
+            n1, g1, c1 = gen_behaviours(c, "MC_core", part, max(2, procs // len(cfgs)), num, depth, seed, timeout=600 if tier == "quick" else 3000)
+            nb += n1; gen_s += g1; cached = cached and c1
+            parts.append(part)
+        with open(beh, "w") as f:
+            for part in parts:
+                f.write(open(part).read())
     if nb == 0:
         raise vlib.ToolError("no behaviours generated")
     shapes = behaviour_shapes(beh)
     # --- 3. replay into the implementation
-    rc, out, err = vlib.harness(["replay", "--in", beh, "--seed", seed, "--threads", 16, "--out-dir", os.path.join(vlib.WORK, "replay", prop)],
-                                timeout=3000)
-    summ = vlib.last_json(out)
+    summ = None
+    for flags in (harness_flags if harness_flags and isinstance(harness_flags[0], (list, tuple)) else [list(harness_flags)]):
+        rc, out, err = vlib.harness(["replay", "--in", beh, "--seed", seed, "--threads", 16, "--out-dir", os.path.join(vlib.WORK, "replay", prop)] + list(flags),
+                                    timeout=3000)
+        s1 = vlib.last_json(out)
+        if summ is None:
+            summ = s1
+        else:   # merge runs (e.g. in-memory and SQLite providers)
+            summ["behaviours"] += s1["behaviours"]; summ["steps"] += s1["steps"]
+            summ["distinct_states"] = max(summ["distinct_states"], s1["distinct_states"])
+            for k, v in s1["stats"].items(): summ["stats"][k] = summ["stats"].get(k, 0) + v
+            for k, v in s1["configs"].items(): summ["configs"][k + "".join(flags)] = v
+            summ["violations"] += s1["violations"]
     for v in summ["violations"]:
         if prop in v["props"]:
             violations.append({"key": f"{v['kind']}", "what": v["what"], "replay": v.get("replay")})
@@ -122,7 +142,7 @@ def run_core(ctx, prop, need_stats=(), need_shapes=(), sim_cfg="SIM_core", mc_qu
         "states": mc.distinct, "transitions": mc.generated, "traces_validated_against_impl": summ["behaviours"],
         "evaluations": summ["steps"], "distinct_nontrivial": summ["distinct_states"],
         "rule": "TLC explores MlsGroup.tla exhaustively on the bounded instance " + mc_cfg + " (all invariants) and generates random behaviours of "
-                + sim_cfg + " (weighted towards protocol progress, see MC_core.tla SimNext); every behaviour is replayed step by step into real "
+                + "+".join(sim_cfgs or [sim_cfg]) + " (weighted towards protocol progress, see MC_core.tla SimNext); every behaviour is replayed step by step into real "
                 "mls-rs Groups (random cipher suite / provider mix / commit options per behaviour); evaluations = replayed steps, "
                 "distinct_nontrivial = distinct projected member states (epoch, leaf, tree shape, key positions, cache) seen in the implementation. " + extra_rule,
         "samples": [sample_behaviour(beh)],
@@ -133,6 +153,6 @@ def run_core(ctx, prop, need_stats=(), need_shapes=(), sim_cfg="SIM_core", mc_qu
         "invariants": invariants_note,
         "tlc_sim_wall_s": round(gen_s, 1), "behaviours_cached": cached,
     }
-    return {"level": "model_checking", "coverage": cov, "violations": violations,
+    return {"level": level, "coverage": cov, "violations": violations,
             "assumptions": ["symbolic (Dolev-Yao) cryptography in the model", "bounded instance for exhaustive checking; larger instances sampled by simulation",
                             "at most one by-reference add and one by-reference remove per leaf and epoch (hash-map order of the proposal cache)"]}
